@@ -11,7 +11,9 @@ import json, os, shutil, subprocess, sys, tempfile
 SIBLING = {"C03-r2-seed2": ["C06"], "C03-r3-seed2": ["C20"], "C05-r3-seed1": ["C19"], "C05-r3-seed2": ["C10"],
            "C16-r4-seed2": ["C08"], "C04-r4-seed2": ["C08"], "C02-r4-seed1": ["C11"], "C07-r4-seed1": ["C10"],
            "C01-r5-seed1": ["C19"], "C02-r5-seed2": ["C11"], "C03-r5-seed1": ["C05"], "C05-r5-seed1": ["C10"], "C07-r5-seed2": ["C10"],
-           "C09-r5-seed2": ["C10"], "C15-r5-seed2": ["C11"], "C06-r5-seed1": []}
+           "C09-r5-seed2": ["C10"], "C15-r5-seed2": ["C11"], "C06-r5-seed1": [],
+           "C01-r6-seed1": ["C18"], "C07-r6-seed1": ["C18"], "C19-r6-seed1": ["C18"], "C03-r6-seed1": ["C04"], "C10-r6-seed1": ["C09"],
+           "C20-r6-seed1": ["C13"], "C06-r6-seed1": []}
 # C20-seed2 is neutralised by the fix 2dda896 (its own demo passes at HEAD); C07-r2-seed2 needs the thorough tier (four shards)
 ENV = dict(os.environ, GOFLAGS="-mod=mod", GOPROXY="off", GOSUMDB="off", GOTOOLCHAIN="local")
 
